@@ -536,9 +536,9 @@ theorem wrap_finish {F : Facts} (w : WFParts F) (e : ExcObj) (ht : Tame F e.cls)
           simp only [hfz', Bool.false_eq_true, if_false, finish]
           have hig : isInst (ExcObj.mk (e.id + 1) wc e.args e.args none none (some e.id)) "GlomError" = true :=
             wrapClass_has_glom hwc
-          simp only [hig, if_true, hfz', Bool.false_eq_true, if_false, w.errTest, Bool.false_and]
+          simp only [hig, if_true, Bool.false_eq_true, if_false, w.errTest, Bool.false_and]
           exact ⟨_, rfl, .wrapper wc hwc rfl rfl rfl ⟨rfl, rfl⟩ hfz', Or.inr ⟨wc, rfl, rfl, hfz'⟩⟩
-      · simp only [bne_iff_ne, ne_eq, ha, not_false_eq_true, decide_true, if_true, finish, hg,
+      · simp only [bne_iff_ne, ne_eq, ha, not_false_eq_true, if_true, finish, hg,
           Bool.false_eq_true, if_false]
         exact ⟨e, rfl, .orig rfl, Or.inl rfl⟩
 
@@ -559,7 +559,7 @@ theorem wrap_finish_glom {F : Facts} (w : WFParts F) (e : ExcObj)
     finish]
   have hig : isInst (ExcObj.mk (e.id + 1) wc e.args e.args none none (some e.id)) "GlomError" = true :=
     wrapClass_has_glom hwc
-  simp only [hig, if_true, hctor.2, Bool.false_eq_true, if_false, w.errTest, Bool.false_and]
+  simp only [hig, if_true, Bool.false_eq_true, if_false, w.errTest, Bool.false_and]
   exact ⟨_, rfl, hig⟩
 
 /-! ### the handler -/
